@@ -12,8 +12,26 @@ import concurrent.futures as cf
 import collections, json, os, re
 from .. import vlib
 
+import threading
+
 LEVEL = "model_checking"
 FAMILY = "backoff"
+TLC_BUDGET = 4          # TLC worker threads in flight at any time, over all concurrent TLC runs of this check
+_cond, _used = threading.Condition(), [0]
+
+
+def run_tlc(ctx, *a, workers=1, **kw):
+    """vlib.run_tlc under the budget: a run with n workers holds n of the TLC_BUDGET permits."""
+    with _cond:
+        while _used[0] + workers > TLC_BUDGET:
+            _cond.wait()
+        _used[0] += workers
+    try:
+        return vlib.run_tlc(ctx, *a, workers=workers, **kw)
+    finally:
+        with _cond:
+            _used[0] -= workers
+            _cond.notify_all()
 T1, T2 = "T1", "T2"
 
 # seeded model defects: (Bug, property that must fail, constant overrides, properties to check (None = all))
@@ -31,9 +49,10 @@ MUST_FAIL = [
     ("noStateBo", "P_C08_PruneStatesBackoff", {}, None),
     ("floodSign", "P_C08_Refuse", {}, None),
     ("onePenalty", "P_C08_Refuse", {}, None),
+    ("scoreFirst", "P_C08_Refuse", {}, None),      # another refusal branch (negative score) taken before the backoff check: no penalty
 ]
 QUICK_MUST_FAIL = {("none", "P_C08_NoEarlyGraft"), ("hbFilter", "P_C08_NoEarlyGraft"), ("ignorePeerBo", "P_C08_Refuse"),
-                   ("sweepAll", "P_C08_NoEarlyGraft"), ("noStateBo", "P_C08_PruneStatesBackoff"), ("onePenalty", "P_C08_Refuse")}
+                   ("sweepAll", "P_C08_NoEarlyGraft"), ("noStateBo", "P_C08_PruneStatesBackoff"), ("onePenalty", "P_C08_Refuse"), ("scoreFirst", "P_C08_Refuse")}
 
 MC_CONST = {"Peers": '{"p1", "p2"}', "V10": '{"p2"}', "PruneBackoff": 3, "UnsubBackoff": 1, "GraftFlood": 1, "SweepEvery": 2,
             "Slack": 1, "BVals": "{1, 5}", "D": 2, "Dlo": 2, "InitTicks": 0, "MaxNow": 0, "MaxStim": 0, "Fused": False,
@@ -146,6 +165,18 @@ def directed(thorough):
         # refusals for other reasons must not start a backoff in the monitor: direct peer, negative score
         add("other-refusals", c, start + [SUB, HB, prune("p1", 1)] + hb(2) + [{"a": "direct", "p": "p1", "on": True}, graft("p1"), {"a": "direct", "p": "p1", "on": False},
                                                                            {"a": "score", "p": "p1", "v": -1}, graft("p1"), {"a": "score", "p": "p1", "v": 0}, graft("p1")] + hb(pb + 1) + [graft("p1")] + hb(20))
+    # GRAFT during backoff crossed with the refusal branches that FOLLOW the backoff check in handleGraft (negative score;
+    # mesh at Dhi and the peer inbound): the penalty is due whatever else would also refuse the GRAFT, inside the flood
+    # window (2) and after it (1). The mesh is at Dhi only between the inbound GRAFT that fills it and the next heartbeat.
+    for pb, ub, gf in ((3, 1, 1), (5, 2, 2)):
+        c = base_cfg(pb, ub, gf, hosts=8)
+        st5 = [peer("p1"), peer("p2", "v12"), peer("p3", "v11", "in", ()), peer("p4", "v11", "in", ()), peer("p5", "v12", "in", ()), {"a": "subscribe", "t": T2}]
+        add("refuse-mesh-full", c, st5 + [SUB, HB, prune("p4"), graft("p3"), graft("p4")] + hb(gf + 1) + [graft("p5"), graft("p4")] + hb(2))
+        add("refuse-mesh-full-late", c, st5 + [SUB, HB, prune("p4")] + hb(gf + 1) + [graft("p3"), graft("p4"), HB, graft("p5"), graft("p4")] + hb(2))
+        add("refuse-mesh-full-peerbo", c, st5 + [SUB, HB, prune("p4", pb + 4), graft("p3"), graft("p4")] + hb(pb + 1) + [graft("p5"), graft("p4")] + hb(2))
+        neg, zero = {"a": "score", "p": "p1", "v": -1}, {"a": "score", "p": "p1", "v": 0}
+        add("refuse-negative-score", c, start + [SUB, HB, prune("p1"), neg, graft("p1")] + hb(gf + 1) + [graft("p1")] + hb(gf) + [graft("p1"), zero] + hb(pb + 1) + [graft("p1")] + hb(2))
+        add("refuse-negative-score-own", c, start + [SUB, HB, neg, HB, graft("p1")] + hb(gf + 1) + [graft("p1")] + hb(2))
     # Join by fanout promotion: former mesh members under backoff are dropped from the fanout set
     for pb, ub, gf in ((3, 1, 1),) + (((5, 2, 2),) if thorough else ()):
         c = base_cfg(pb, ub, gf, fanoutTTLS=60)
@@ -271,7 +302,7 @@ def validate(ctx, name, recs, chunk_lines=4000):
                 ln["scn"] = i          # scenario index inside `recs`
                 lines.append(ln)
         vlib.write_ndjson(path, lines)
-        res = vlib.run_tlc(ctx, FAMILY, "BackoffTrace", "BackoffTrace.cfg", mode="trace", files={"trace.ndjson": path},
+        res = run_tlc(ctx, FAMILY, "BackoffTrace", "BackoffTrace.cfg", mode="trace", files={"trace.ndjson": path},
                            timeout=900, name="%s-tv-%d" % (name, k), heap="3g")
         if res.hw is None or res.hw[0] < res.hw[1] or not res.no_error:
             raise vlib.Inconclusive("trace validation of %s chunk %d stopped at line %s of %d (see %s/tlc.out): %s" %
@@ -336,16 +367,16 @@ def drift(ctx, source, recs, scns, counters):
 def model_part(ctx):
     """1. the model satisfies the properties (unbounded clock); every seeded model defect is caught."""
     main_over = {} if not ctx.thorough else {"GatePeers": '{"p1", "p2"}', "DownPeers": '{"p1", "p2"}'}
-    mc = vlib.run_tlc(ctx, FAMILY, "Backoff", mc_cfg(main_over), timeout=1800, workers=4 if not ctx.thorough else 6, name="mc")
+    mc = run_tlc(ctx, FAMILY, "Backoff", mc_cfg(main_over), timeout=1800, workers=2, name="mc")
     vlib.require_mc_ok(ctx, mc, "Backoff (Bug = none)")
     st, tr = mc.distinct, mc.generated
     mcs = {"Backoff": [mc.distinct, mc.generated]}
     if ctx.thorough:
-        mc2 = vlib.run_tlc(ctx, FAMILY, "Backoff", mc_cfg({"PruneBackoff": 2, "UnsubBackoff": 4, "BVals": "{1, 3}"}), timeout=900, workers=4, name="mc-unsub-longer")
+        mc2 = run_tlc(ctx, FAMILY, "Backoff", mc_cfg({"PruneBackoff": 2, "UnsubBackoff": 4, "BVals": "{1, 3}"}), timeout=900, workers=2, name="mc-unsub-longer")
         vlib.require_mc_ok(ctx, mc2, "Backoff (UnsubBackoff > PruneBackoff)")
         st += mc2.distinct; tr += mc2.generated
         mcs["Backoff(unsub>prune)"] = [mc2.distinct, mc2.generated]
-        mc3 = vlib.run_tlc(ctx, FAMILY, "Backoff", mc_cfg({"DirectPeers": '{"p1"}'}), timeout=900, workers=4, name="mc-direct")
+        mc3 = run_tlc(ctx, FAMILY, "Backoff", mc_cfg({"DirectPeers": '{"p1"}'}), timeout=900, workers=2, name="mc-direct")
         vlib.require_mc_ok(ctx, mc3, "Backoff (p1 can be made a direct peer)")
         st += mc3.distinct; tr += mc3.generated
         mcs["Backoff(direct)"] = [mc3.distinct, mc3.generated]
@@ -354,7 +385,7 @@ def model_part(ctx):
     def bug(m):
         b, prop, over, props = m
         o = dict(over); o["Bug"] = '"%s"' % b
-        r = vlib.run_tlc(ctx, FAMILY, "Backoff", mc_cfg(o, props), timeout=600, workers=1, name="mc-bug-%s-%s%s" % (b, prop[6:], "-asfound" if over.get("FlushFilter") is False else ""))
+        r = run_tlc(ctx, FAMILY, "Backoff", mc_cfg(o, props), timeout=600, workers=1, name="mc-bug-%s-%s%s" % (b, prop[6:], "-asfound" if over.get("FlushFilter") is False else ""))
         vlib.require_mc_fails(ctx, r, "Backoff (Bug = %s %s)" % (b, over), prop)
         return (b if b != "none" else "none (FlushFilter = FALSE, the code as found: D17)"), prop
     with cf.ThreadPoolExecutor(max_workers=2) as ex:
@@ -365,7 +396,7 @@ def model_part(ctx):
 
 def gen_one(ctx, item):
     name, over, num = item
-    g = vlib.run_tlc(ctx, FAMILY, "GenBackoff", gen_cfg(over), mode="sim", simulate="num=%d" % num, depth=over["L"] + 5, workers=1,
+    g = run_tlc(ctx, FAMILY, "GenBackoff", gen_cfg(over), mode="sim", simulate="num=%d" % num, depth=over["L"] + 5, workers=1,
                      timeout=900, name="gen-" + name)
     got = g.printed("SCN")
     if g.timed_out or len(got) < num // 2:
@@ -407,7 +438,7 @@ def run(ctx):
     # ---- 3. replay on the real node (Go runs one after the other), 4. judge the recorded lines with BackoffTrace
     # (the validation of one source overlaps the replay of the next)
     wcfg = {"score": True, "penWeight": 0}
-    wcfg2 = {"score": True, "penWeight": 0, "pruneBackoffS": 2, "unsubBackoffS": 6, "graftFloodS": 1, "D": 3, "Dlo": 2, "Dhi": 4, "Dscore": 1, "Dout": 0}
+    wcfg2 = {"score": True, "penWeight": 0, "pruneBackoffS": 2, "unsubBackoffS": 6, "graftFloodS": 1, "D": 3, "Dlo": 2, "Dhi": 3, "Dscore": 1, "Dout": 0}
     jobs = [("directed", lambda: (replay(ctx, "replay-directed", dirs), dirs)),
             ("gen", lambda: (replay(ctx, "replay-gen", gen), gen)),
             ("walk", lambda: walks(ctx, "walk", 30 if q else 150, 80 if q else 120, wcfg)),
@@ -419,7 +450,7 @@ def run(ctx):
         recs, scns = job()
         sources.append((source, recs, scns, pool.submit(validate, ctx, source, recs)))
 
-    cov = collections.Counter()
+    cov, refs = collections.Counter(), collections.Counter()     # refs: (flood, kind, penalty checked, mesh full + inbound, negative score)
     total_lines, total_scn, nontrivial = 0, 0, set()
     dcount = collections.Counter(); dcount["drift_samples"] = []
     notes_seen = set()
@@ -430,6 +461,8 @@ def run(ctx):
         total_lines += sum(len(s) for s in recs)
         per_scn = collections.defaultdict(set)
         for x in c:
+            if x["c"] == "refuse":
+                refs[(x["flood"], x["kind"], x["pen"], x.get("full", False), x.get("neg", False))] += 1
             key = ":".join(str(x[k]) for k in sorted(x) if k not in ("scn", "i", "line"))
             cov[key] += 1
             per_scn[x["scn"]].add(x["c"])
@@ -489,10 +522,18 @@ def run(ctx):
         "outbound quota graft": sum(n for k, n in cov.items() if k.startswith("graft:") and k.endswith(":hb-outbound")),
         "opportunistic graft with a peer under backoff": has(["filtered", "hb-opportunistic"]),
         "opportunistic graft": sum(n for k, n in cov.items() if k.startswith("graft:") and k.endswith(":hb-opportunistic")),
-        "refusal inside the flood window (standard backoff, penalty checked)": cov.get("refuse:True:std:True", 0),
-        "refusal outside the flood window (standard backoff, penalty checked)": cov.get("refuse:False:std:True", 0),
-        "refusal under a peer-specified backoff": sum(n for k, n in cov.items() if k.startswith("refuse:") and ":peer:" in k),
-        "refusal under the unsubscribe backoff": sum(n for k, n in cov.items() if k.startswith("refuse:") and ":unsub:" in k),
+        "refusal inside the flood window (standard backoff, penalty checked)": sum(n for k, n in refs.items() if k[:3] == (True, "std", True)),
+        "refusal outside the flood window (standard backoff, penalty checked)": sum(n for k, n in refs.items() if k[:3] == (False, "std", True)),
+        "refusal under a peer-specified backoff": sum(n for k, n in refs.items() if k[1] == "peer"),
+        "refusal under the unsubscribe backoff": sum(n for k, n in refs.items() if k[1] == "unsub"),
+        "GRAFT from a backed-off inbound peer while the mesh is at or above Dhi, inside the flood window (penalty checked)":
+            sum(n for k, n in refs.items() if k[0] and k[1] == "std" and k[2] and k[3]),
+        "GRAFT from a backed-off inbound peer while the mesh is at or above Dhi, outside the flood window (penalty checked)":
+            sum(n for k, n in refs.items() if not k[0] and k[1] == "std" and k[2] and k[3]),
+        "GRAFT from a backed-off peer with a negative score, inside the flood window (penalty checked)":
+            sum(n for k, n in refs.items() if k[0] and k[1] == "std" and k[2] and k[4]),
+        "GRAFT from a backed-off peer with a negative score, outside the flood window (penalty checked)":
+            sum(n for k, n in refs.items() if not k[0] and k[1] == "std" and k[2] and k[4]),
         "received PRUNE with a backoff longer than the default": sum(n for k, n in cov.items() if k.startswith("prune-recv:") and ":longer:" in k),
         "received PRUNE with a backoff shorter than the default": sum(n for k, n in cov.items() if k.startswith("prune-recv:") and ":shorter:" in k),
         "shorter backoff received while a longer one is running (kept)": sum(n for k, n in cov.items() if k.startswith("prune-recv:True:")),
